@@ -14,7 +14,7 @@ impl IndexBuilder for MysqlQueryBuilder {
                 sql,
                 "{}{}{} ",
                 self.quote().left(),
-                name,
+                Alias::new(name).quoted(self.quote()),
                 self.quote().right()
             )
             .unwrap();
@@ -42,7 +42,7 @@ impl IndexBuilder for MysqlQueryBuilder {
                 sql,
                 "{}{}{}",
                 self.quote().left(),
-                name,
+                Alias::new(name).quoted(self.quote()),
                 self.quote().right()
             )
             .unwrap();
@@ -76,7 +76,7 @@ impl IndexBuilder for MysqlQueryBuilder {
                 sql,
                 "{}{}{}",
                 self.quote().left(),
-                name,
+                Alias::new(name).quoted(self.quote()),
                 self.quote().right()
             )
             .unwrap();
